@@ -8,6 +8,7 @@ export VERIF_HARNESS_DIR=/tmp/harness-snap-all
 : > seeded/RESULTS.txt
 for d in seeded/*/; do
   n=$(basename "$d"); p="${n%%-*}"
+  if grep -q '"superseded"' "$d/meta.json" 2>/dev/null; then echo "$n vs $p: superseded (unreachable on the fixed tree, see meta.json)" | tee -a seeded/RESULTS.txt; continue; fi
   r=$(tools/run_seed.sh "/verif/seeded/$n" "$p" 2>&1 | tail -1)
   echo "$r" | tee -a seeded/RESULTS.txt
 done
